@@ -251,7 +251,7 @@ class Module:
         if os.environ.get("VERIF_NO_CANON") != "1":
             from . import canon
 
-            self.tree, self.canon_notes = canon.canonicalise(self.tree, name)
+            self.tree, self.canon_notes = canon.canonicalise(self.tree, name, os.path.basename(path) == "__init__.py")
         self.is_package = os.path.basename(path) == "__init__.py"
         self.imports: dict[str, str] = {}
         self.assigns: dict[str, ast.expr] = {}
